@@ -138,24 +138,6 @@ def cbd_dominated(P, lab, met, kept, d, keep_greater):
     return None
 
 
-def reference_greedy(P, lab, met, d, keep_greater):
-    """Independent statement of the unique set that is separated and dominating (valid when conflicting metrics are
-    distinct): scan by decreasing preference, keep a row iff no already kept row of its group is closer than d.
-    Used by the driver to build expectations for metamorphic variants, never to replace the property clauses."""
-    kept = np.zeros(len(P), dtype=bool)
-    for g, idx in groups_of(lab).items():
-        order = idx[np.argsort(-met[idx] if keep_greater else met[idx], kind="stable")]
-        D = dist_matrix(P[idx])
-        loc = {int(r): j for j, r in enumerate(idx)}
-        chosen = []
-        for r in order:
-            j = loc[int(r)]
-            if all(D[j, c] >= d for c in chosen):
-                chosen.append(j)
-                kept[r] = True
-    return kept
-
-
 # ---------------------------------------------------------------------------------------------------
 # score maps
 # ---------------------------------------------------------------------------------------------------
